@@ -76,10 +76,6 @@ def ref_Pvec(P):
     return np.array([float(v) for v in P])
 
 
-def stype(desc):
-    return desc['kind']
-
-
 def conic_params(desc):
     if desc['kind'] == 'plane':
         return 0.0, 0.0, 0.0, 0.0
@@ -847,6 +843,38 @@ def run_seq(case, seed, R):
     R.outcome(f'len{len(geos)}')
 
 
+def ref_census(cases, tier):
+    """Reference-only census of the rays of unit ``single`` (closed-form shapes): how many are judged / excluded and why."""
+    P0, S0 = bundle(tier)
+    tot = {'rays': 0, 'hit': 0, 'miss': 0, 'start-outside': 0, 'tir': 0, 'exact-axis': 0}
+    for case in cases:
+        sd = case['surf']
+        if sd['shape']['kind'] == 'q2d':
+            continue
+        g = Geo(sd, 0)
+        p, d = g.to_local(P0, S0)
+        with np.errstate(all='ignore'):
+            roots, _ = g.roots(p, d)
+            s0 = -p[:, 2] / d[:, 2]
+            p1 = p + s0[:, None] * d
+            dom = np.isfinite(g.sag(p1[:, 0], p1[:, 1])) & np.isfinite(s0)
+            hit = np.isfinite(roots).any(axis=1)
+            sr = np.where(np.isfinite(roots), roots, np.inf)
+            sr = np.take_along_axis(sr, np.argmin(np.abs(sr - s0[:, None]), axis=1)[:, None], axis=1)[:, 0]
+            q = p + np.where(np.isfinite(sr), sr, 0.0)[:, None] * d
+            cosI = np.einsum('ij,ij->i', d, g.normal(q[:, 0], q[:, 1]))
+            mu = case['n0'] / g.nprime
+            tir = (g.typ == 'refr') & (1 - mu * mu * (1 - cosI * cosI) < 1e-6)
+        j = hit & dom
+        tot['rays'] += len(hit)
+        tot['miss'] += int((~hit).sum())
+        tot['start-outside'] += int((hit & ~dom).sum())
+        tot['tir'] += int((j & tir).sum())
+        tot['hit'] += int((j & ~tir).sum())
+        tot['exact-axis'] += int((j & (np.hypot(p1[:, 0], p1[:, 1]) == 0)).sum())
+    return tot
+
+
 def plan(tier, seed):
     shp = shapes(tier)
     pos = poses(tier)
@@ -858,7 +886,7 @@ def plan(tier, seed):
              for s in shp if (s['kind'] != 'oac' or s['dx'] == 20.0) and s.get('k', 0.0) in (0.0, -0.6, -1.0) and s.get('c', 1) > 0
              for p in ({'P': [0.0, 0.0, 10.0], 'R': None}, {'P': [1.5, -2.0, 12.0], 'R': [0, 5, 3]}) for t in TYPES[:3]]
     axis = [{'surf': sdesc(s, p, t), 'n0': t['n0'], 'skew': sk}
-            for s in shp if s['kind'] != 'q2d' for p in pos for t in TYPES[:3] for sk in (False, True)]
+            for s in shp if s['kind'] != 'q2d' for p in pos for t in (TYPES[:2] if tier == 'quick' else TYPES[:3]) for sk in (False, True)]
     ref = [{'shape': s} for s in shp + q_shapes(tier, ks=(-0.6,))]
     frames = [{'P': p['P'], 'R': p['R'], 'form': f} for p in pos for f in ('batch', 'single')]
     if tier == 'thorough':
@@ -869,6 +897,7 @@ def plan(tier, seed):
     seq += [{'seq': s, 'n0': 1.5, 'form': 'batch', 'tier': tier} for s in seqs if len(s) == 2]
     nd = len(directions(tier))
     nl = 5 if tier == 'quick' else 9
+    cen = ref_census(single, tier)
     rs_ = reset_all
     return [
         ScopeUnit('refmodel', ref, run_refmodel,
@@ -885,14 +914,17 @@ def plan(tier, seed):
                   f'4 Q-type surfaces on a k=0 base with seeded coefficients) x every pose ({len(pos)}) x {{reflect, refract (1,1.5), (1.5,1), (1,1)}}; each case traces '
                   f'{nd} directions (axial, 2 skew, steep 30 deg{", 2 more" if nd > 4 else ""}) x a {nl}x{nl} lattice of origins INCLUDING the exact axis = {nd * nl * nl} rays through raytrace; every ray that the '
                   'reference says hits (discriminant of the quadric, sheet through the vertex) is judged on all clauses; misses / TIR / out-of-domain starts are '
-                  'excluded by the reference and counted in the outcome histogram (label:bucket of rays per case); non-trivial when an off-axis hit was judged', reset=rs_),
+                  'excluded by the reference and counted in the outcome histogram (label:bucket of rays per case); non-trivial when an off-axis hit was judged. '
+                  f'Reference-only census of the closed-form shapes: {cen["rays"]} rays, {cen["hit"]} judged on every clause ({cen["exact-axis"]} of them cross the local z=0 plane '
+                  f'exactly at x=y=0), {cen["miss"]} excluded as geometric misses (negative discriminant / wrong sheet), {cen["start-outside"]} excluded because the '
+                  f'iteration would start outside the domain of the sag, {cen["tir"]} judged on the point only (at or beyond the critical angle)', reset=rs_),
         ScopeUnit('q2d_conic_base', qk, run_single,
                   'the four Q-type surfaces on a k=-0.6 conic base x 3 poses x {reflect, refract (1,1.5)}: same oracle as unit single', reset=rs_),
         ScopeUnit('single1d', one_d, run_single1d,
                   'shapes with c>0, k in {0,-0.6,-1} x 2 poses (untilted, tilted+decentred) x {reflect, refract (1,1.5), (1.5,1)}: six representative rays (corner, generic, '
                   'exact axis, skew, skew through the centre, steep) each traced as a single 1-D ray, same oracle', reset=rs_),
         ScopeUnit('axis', axis, run_axis,
-                  'every non-Q shape x pose x {reflect, refract (1,1.5), (1.5,1)} x {axial, skew-aimed-at-vertex}: the ray through the local origin (exactly x=y=0 for '
+                  'every non-Q shape x pose x {reflect, refract (1,1.5)[, (1.5,1) in thorough]} x {axial, skew-aimed-at-vertex}: the ray through the local origin (exactly x=y=0 for '
                   'untilted surfaces) and four neighbours at 1e-4: finite, judged by the hop oracle, and equal to the mean of its neighbours to O(delta^2 c)', reset=rs_),
         ScopeUnit('seq', seq, run_seq,
                   f'ALL sequences of length <= {L} over a pool of 5 posed surfaces (refracting sphere, tilted refracting conic back to n=1, tilted decentred refracting plane, '
